@@ -31,6 +31,8 @@ RX_HASH_ITER = [
     re.compile(r"^<&?(mut )?std::collections::Hash(Map|Set)<.*> as std::iter::IntoIterator>::into_iter$"),
 ]
 RX_HASH_TYPE = re.compile(r"std::collections::Hash(Map|Set)<")
+RX_ORDER_FREE_SET = re.compile(r"std::collections::(HashSet|hash_set::\w+)<(&?'?\w* ?)?(leptos_i18n_build::datakey::Options|icu_provider::(\w+::)*DataKey|icu_datagen::(\w+::)*DataKey)\b")
+RX_OTHER_HASH = re.compile(r"std::collections::(Hash(Map|Set)<|hash_(map|set)::)")
 
 # generic callees instantiated with a hash collection as a type argument (they may iterate it)
 ALLOW_HASH_CONSUMERS = {
@@ -94,6 +96,11 @@ def r1_unordered(ctx, cfgs):
                 if hit or generic_hash:
                     key = (root_fn(b.name), generic_hash or op_const(t["func"])["fn"])
                     why = ALLOW_HASH_CONSUMERS.get(key)
+                    if not why and RX_ORDER_FREE_SET.search(full or "") and not RX_OTHER_HASH.search(RX_ORDER_FREE_SET.sub("", full or "")) and b.crate == "leptos_i18n_build":
+                        # the set of ICU data options / data keys of the build helper: it ends in DatagenDriver::with_keys, which takes a
+                        # set; C20 decides its content, no generated code or diagnostic depends on its order
+                        r.inst("%s -> %s" % (b.name, (full or names[0])[:120]), "order-free by construction: a hash set of ICU data options / data keys (consumed as a set by icu_datagen)", cfg=cfg)
+                        continue
                     site = "%s -> %s" % (b.name, full or names[0])
                     if why and not (hit and "hash_" in hit and key[1] not in ("std::iter::Iterator::collect", "std::iter::Extend::extend")):
                         r.inst(site, "allow-listed hash consumer: " + why, cfg=cfg)
